@@ -136,8 +136,11 @@ def fit_tilt_rule(chk, repo, clause):
             if eins and any(e.kind == 'write' and e.data.get('attr') == 'opd' or e.kind == 'call' and
                             str(e.data.get('callee', '')).startswith('ext:numpy.') and e.data.get('inplace') for e in p.events):
                 # the ramp is taken out of the OPD on this path but never entered in the tilt list: it is lost
-                chk.ob(clause, 'D-index', f.key, 'the removed tip/tilt is recorded on every path', False,
-                       f'path [{conds_str(p)[:160]}] subtracts the fitted ramp from the OPD without appending a Tilt', f.loc(p.node))
+                grows = [w for w in p.events if w.kind == 'write' and w.data.get('how') in ('method:append', 'method:extend', 'augassign')
+                         and isinstance(w.target, Poly) and any(a_[0] == 'attr' and a_[2] == 'tilt' for a_ in nf.value_atoms(w.target) | {w.target.single_atom()} if a_)]
+                chk.ob(clause, 'D-index', f.key, 'the removed tip/tilt is recorded on every path', None if grows else False,
+                       (f'undecided: path [{conds_str(p)[:100]}] extends the tilt list with something that is not followed' if grows else
+                        f'path [{conds_str(p)[:160]}] subtracts the fitted ramp from the OPD without appending a Tilt'), f.loc(p.node))
             continue
         for t, e in zip(tilts, eins):
             n += 1
@@ -281,6 +284,11 @@ def basis_rule(chk, repo, clause):
     for label, rows, masks in cases:
         ok_rows = ok_scale = False
         det = ''
+        # the grids of this case: the mesh call its own rows are built from (another path may have called mesh with the
+        # plane shape spelled differently)
+        own = [a for a in nf.value_atoms(rows[1]) if is_app(a, 'call:helper.mesh')]
+        if len(own) == 1:
+            r, c = nf.index(Poly.atom(own[0]), C(0)), nf.index(Poly.atom(own[0]), C(1))
         for m in masks:
             mv = nf.app('m:ravel', m)
             base = [rows[i] / mv for i in range(3)]
